@@ -917,8 +917,12 @@ func (obj *Package) GetFunc(name string) (fi *FuncInfo) {
 	return
 }
 
-// DefLambda registers a named lambda function. This is called by defun.
-func (obj *Package) DefLambda(name string, lam *Lambda, fc func(args List) Object, kind Symbol) (fi *FuncInfo) {
+// DefLambda registers a named lambda function. This is called by defun. Calls
+// that have already been compiled refer to the Lambda registered for the name
+// so on a redefinition that Lambda takes over the new definition and remains
+// the one registered. It is returned and is the Lambda the fc function must
+// use for the calls it creates or the next redefinition would not reach them.
+func (obj *Package) DefLambda(name string, lam *Lambda, fc func(args List) Object, kind Symbol) (reg *Lambda) {
 	obj.mu.Lock()
 	// A function inherited from a used package is redefined in place. It
 	// stays a function of the package it belongs to and that is where its
@@ -928,12 +932,13 @@ func (obj *Package) DefLambda(name string, lam *Lambda, fc func(args List) Objec
 		home = fi.Pkg
 		home.mu.Lock()
 	}
-	if xlam := home.lambdas[name]; xlam != nil {
-		xlam.Doc = lam.Doc
-		xlam.Forms = lam.Forms
-		xlam.Closure = lam.Closure
-		xlam.Macro = lam.Macro
+	if reg = home.lambdas[name]; reg != nil {
+		reg.Doc = lam.Doc
+		reg.Forms = lam.Forms
+		reg.Closure = lam.Closure
+		reg.Macro = lam.Macro
 	} else {
+		reg = lam
 		home.lambdas[name] = lam
 	}
 	if home != obj {
